@@ -2,47 +2,14 @@ package c11
 
 import (
 	"bytes"
-	"strings"
-	"unicode"
 
-	"golang.org/x/text/unicode/norm"
+	"cuelang.org/go/verifh/dgen"
 )
 
 // knownBad names the exclusion (tied to a known finding) that removes string s
 // from generation, or "". Each predicate describes the root cause, not the
 // individual failing strings.
-func knownBad(s string, isKey bool) string {
-	if isKey && !norm.NFC.IsNormalString(s) {
-		// F10: the compiler NFC-normalises labels (applies to C10-C12)
-		return "NFCLabelsOnly(F10)"
-	}
-	if strings.HasPrefix(s, "...") {
-		// F34a: a plain scalar or key starting with "..." is emitted unquoted and
-		// read as a document-end marker
-		return "NoLeadingDocumentEndMarker(F34a)"
-	}
-	if i := strings.IndexByte(s, '\n'); i >= 0 && strings.TrimLeft(s[:i], " \t") == "" {
-		// F11: a multi-line string whose first line is blank is emitted as a literal
-		// block scalar without indentation indicator / keep chomping and loses characters
-		return "NoBlankFirstLineInMultiline(F11)"
-	}
-	for _, r := range s {
-		if r > 0x7e && !unicode.IsPrint(r) {
-			// F20: non-printable Unicode is written as a \u escape inside a
-			// single-quoted scalar, where YAML does not interpret escapes
-			return "NoNonPrintableUnicode(F20)"
-		}
-	}
-	if isKey && strings.ContainsAny(s, "\n\r") {
-		// F48: a key containing a newline is emitted as a block-scalar key that does not read back as a mapping
-		return "NoMultilineKey(F48)"
-	}
-	if isKey && strings.Contains(s, "<<") {
-		// F47: a key ending in "<<" (e.g. "~<<") is emitted plain and read as a merge key
-		return "NoMergeKeyLookalike(F47)"
-	}
-	return ""
-}
+func knownBad(s string, isKey bool) string { return dgen.YAMLKnownBad(s, isKey) }
 
 func jsonExcluded(doc []byte) string {
 	if bytes.ContainsAny(doc, "\t") {
